@@ -1,5 +1,6 @@
 import PebblesVerif.Driver.AstJson
 import PebblesVerif.Model.Exec
+import PebblesVerif.Model.SanitizeShared
 /-! Driver ops of the planner/executor models (C01, C02, C06, C13): `core.plan`, `core.gateway`. -/
 namespace PebblesVerif.Driver.DCore
 open Lean PebblesVerif.Driver PebblesVerif PebblesVerif.Exec
@@ -82,9 +83,14 @@ def handle : Handler
   | "core.plan", j =>
     let op := parseOp ((getObj? j "operation").getD .null)
     let c := parseCtx j op
-    some (match plan c op with
+    -- `planFor`: the value-level model of the theorems (`plan`), the sharing sanitiser where a
+    -- fragment is expanded more than once; where both apply they must agree (`sharedAgrees`)
+    let render (r : G (List Step × Scrub)) : Json := match r with
       | .ok (steps, sf) => obj [("steps", jarr (steps.map (stepToJson c))), ("scrub", scrubToJson sf)]
-      | .error f => faultToJson f)
+      | .error f => faultToJson f
+    let main := render (planFor c op)
+    let agrees : Bool := multiSpread op || (render (planShared c op)).compress == main.compress
+    some (main.setObjVal! "sharedAgrees" agrees |>.setObjVal! "multiSpread" (multiSpread op))
   | "core.gateway", j =>
     let op := parseOp ((getObj? j "operation").getD .null)
     let c := parseCtx j op
@@ -93,7 +99,7 @@ def handle : Handler
     let reqVars : Option (List (String × J)) := match getObj? j "variables" with
       | some (.obj kvs) => some (kvs.toList.map (fun (k, v) => (k, toJ v)))
       | _ => none
-    some (match gateway c {} op reqVars (specDownstream svcs data) with
+    some (match gatewayWith planFor c {} op reqVars (specDownstream svcs data) with
       | .ok r => obj [("data", match r.data with | some kvs => ofJ (.obj kvs) | none => Json.null),
           ("errors", strArr r.errors),
           ("calls", jarr (r.calls.map (fun cl => obj [("url", cl.url), ("batch", jarr (cl.batch.map requestToJson))])))]
@@ -113,7 +119,7 @@ def handle : Handler
        [id, fun sf => (sf.reverse.map (fun (p, ts) => (p, ts.reverse))), fun sf => (rot 1 sf).map (fun (p, ts) => (p, rot 1 ts)),
         fun sf => (rot 2 sf).map (fun (p, ts) => (p, rot 1 ts))])
     let outcomes := (perms.1.zip perms.2).map (fun (pt, ps) =>
-      match gateway { c with tum := pt c.tum } {} op reqVars (specDownstream svcs data) ps with
+      match gatewayWith planFor { c with tum := pt c.tum } {} op reqVars (specDownstream svcs data) ps with
       | .ok r => some (match r.data with | some kvs => (Spec.renderJ (canonJ (.obj kvs)), r.errors) | none => ("null", r.errors))
       | .error _ => none)
     some (match outcomes with
@@ -121,7 +127,7 @@ def handle : Handler
         if e0.any (fun m => m.startsWith "not-modelled") then obj [("skipped", true)] else
         let same := rest.all (fun o => match o with | some (d, e) => d == d0 && e == e0 | none => false)
         -- canonical data of the identity order (full canonicalisation is done by the harness)
-        let d := match gateway c {} op reqVars (specDownstream svcs data) with
+        let d := match gatewayWith planFor c {} op reqVars (specDownstream svcs data) with
           | .ok r => (match r.data with | some kvs => ofJ (.obj kvs) | none => Json.null)
           | .error _ => Json.null
         obj [("deterministic", same), ("data", d), ("errors", strArr e0),
